@@ -204,7 +204,7 @@ class Gen:
                 self.features.add("uniform-var-bounds")
                 return ("dist", "Uniform", [H.var(mean_var), H.add(H.var(mean_var), H.num(2))])
             return ("dist", "Uniform", [H.num(a), H.num(a + self.r.choice([1, 2, 3]))])
-        if k < 0.62 and self.documented:
+        if k < 0.62:
             return ("dist", "Exponential", [H.num(self.r.choice([1, 2, Fr(1, 2), 3]))])
         if k < 0.74:
             if mean_var and self.coin(0.3):
@@ -308,6 +308,20 @@ class Gen:
             body += self.finite_update(f)
             self.features.add("late-finite-update")
 
+        self.consts = []
+        if self.documented and self.coin(0.35):
+            # a loop constant: initialised, never reassigned; used in a condition and/or arithmetic
+            kv = r.choice([Fr(2), Fr(1), Fr(0), Fr(3)])
+            init.append(H.assign("k", H.ex(H.num(kv))))
+            self.consts.append("k")
+            self.features.add("loop-constant")
+            if self.nums:
+                x = r.choice(self.nums)
+                stmt = H.assign(x, H.ex(H.add(H.var(x), H.var("k"))))
+                if self.coin(0.6):
+                    self.features.add("constant-in-condition")
+                    stmt = ("ite", H.cmp_(r.choice([">=", "==", "<"]), H.var("k"), H.num(r.choice([1, 2]))), [stmt], [])
+                body.append(stmt)
         guard = H.TT
         if fam == "guarded" and fnames:
             f = r.choice(fnames)
@@ -390,6 +404,9 @@ class Gen:
             if f in assigned:
                 cands.append([(f, 2)])
         r.shuffle(cands)
+        for cv in getattr(self, "consts", []):
+            cands.insert(0, [(cv, 1)])
+            self.features.add("goal-over-constant")
         out = []
         for c in cands:
             c = sorted(c)
